@@ -20,7 +20,7 @@ def family(inst, kind, cname):
   simp only [hz, hE, ↓reduceIte, zero_lit, Int.reduceEq]
   jeq_use_pos (java_eq_c_FluorYield T Z 0 hZ (by decide) s hs), (java_pos_FluorYield T Z hZ 0 (by decide))
   jeq_simp
-  jeq_use (java_eq_c_CS_Photo_Partial T Z 0 hZ (by decide) E s hs (hk.vec 0 (by decide) (by decide)).1 (hk.vec 0 (by decide) (by decide)).2.1 (hk.vec 0 (by decide) (by decide)).2.2 (Or.inl (by decide)))
+  jeq_use (java_eq_c_CS_Photo_Partial T Z 0 hZ (by decide) E s hs (hk.vec 0 (by decide) (by decide)).1 (hk.vec 0 (by decide) (by decide)).2.1 (hk.vec 0 (by decide) (by decide)).2.2)
   jeq_auto
 '''%(inst,HDR,inst,cname,inst,cname))
     for idx,n in enumerate(order):
